@@ -496,6 +496,26 @@ func TestC27(t *testing.T) {
 	}
 	rec.SetExtra("shape_sweep_cases", nSweep)
 
+	// deterministic sweep of certificate sequences that (de)register the same
+	// credential / pool / DRep repeatedly; balanced and off by +-1 lovelace
+	nCertSweep := 0
+	for _, era := range allEras {
+		p := defaultParams(era)
+		p.KeyDeposit, p.PoolDeposit, p.DRepDeposit = 2_000_003, 500_000_007, 400_000_009
+		for _, sq := range certSweep(era, p) {
+			for _, delta := range []int64{0, 1, -1} {
+				c := buildCertCase(era, sq.Certs, p, delta)
+				if !certsValid(c.Tx.Certs, c.SS) {
+					t.Fatalf("harness: cert sweep sequence %s invalid", sq.Name)
+				}
+				nCertSweep++
+				c27Judge(rec, c, fmt.Sprintf("certseq:%s:delta=%d", sq.Name, delta), func(m string) { t.Fatalf("%s", m) },
+					func(key, what string, cs any) bool { return rec.Violation(key, what, cs) })
+			}
+		}
+	}
+	rec.SetExtra("cert_sweep_cases", nCertSweep)
+
 	assetEras := []Era{Mary, Alonzo, Babbage, Conway, Dijkstra}
 	rec.Check(func(rt *rapid.T) {
 		if rapid.IntRange(0, 3).Draw(rt, "shapeFamily") == 0 {
@@ -589,6 +609,14 @@ func c27Judge(rec *evi.Recorder, c *Case, op string, fatal func(string), fail fu
 		} else {
 			rec.Class("as_generated:full_list_rejects")
 			rec.Class(fmt.Sprintf("as_generated:full_list_rejects:%s:%s", era, errClass(fullErr)))
+		}
+	} else if strings.HasPrefix(op, "certseq:") {
+		rec.Class("mode:cert_sweep")
+		if want {
+			rec.Class(fmt.Sprintf("cert_sweep:balanced:full_list_accepts=%v", fullErr == nil))
+			if fullErr != nil {
+				rec.Class("cert_sweep:balanced:full_list_rejects:" + errClass(fullErr))
+			}
 		}
 	} else if strings.HasPrefix(op, "shape:") {
 		rec.Class("mode:shape")
